@@ -4,7 +4,15 @@ import sys, itertools, time, collections, hashlib, pickle
 import numpy as np
 sys.path.insert(0, '/repo'); sys.path.insert(0, '.')
 from proto_ref_atoms import *
-if len(sys.argv) > 2 and sys.argv[2] == 'fix8': exec(open('/tmp/scratch/fix8.py').read())
+if len(sys.argv) > 2 and sys.argv[2] == 'fix8':
+    # emulate candidate repair #8 (num_*_types keep counting the coefficient table when no terms are left)
+    def _mkprop(k):
+        def f(self):
+            t = getattr(self, k + '_types'); c = getattr(self, k + '_type_coeffs')
+            return len(c) if len(t) == 0 else (len(c) or max(t) + 1)
+        return property(f)
+    for _k in KINDS: setattr(Atoms, 'num_%s_types' % _k, _mkprop(_k))
+    Atoms.num_atom_types = property(lambda self: len(self.atom_type_elements))
 CAP = 7
 def ref_replicate(ref, dims, cell):
     atoms = list(ref.atoms); terms = {k: list(v) for k, v in ref.terms.items()}
